@@ -47,7 +47,9 @@ def dec(d, layout="C"):
 
 def lay_out(a, layout):
     """Return an array equal to `a` with the requested memory layout."""
-    if layout == "C" or a.ndim == 0:
+    if a.ndim == 0:
+        return a.copy()            # (np.ascontiguousarray would promote 0-d to 1-d)
+    if layout == "C":
         return np.ascontiguousarray(a)
     if layout == "F":
         return np.asfortranarray(a)
@@ -112,13 +114,12 @@ class RunState:
 
     def must(self, clause, what, fn, *a, **k):
         """run a system call the property requires to succeed; an exception is a failure of `clause`"""
+        from .world import SimFault
         try:
             return fn(*a, **k)
-        except StopRun:
+        except (StopRun, SimFault):
             raise
-        except BaseException as e:
-            if type(e).__name__.startswith("Sim") or isinstance(e, (KeyboardInterrupt, SystemExit)) and not type(e).__name__.startswith("Sim"):
-                raise
+        except Exception as e:
             self.fail(clause, f"{what} raised {type(e).__name__}: {e}")
 
     def obs(self, *parts):
